@@ -1108,14 +1108,14 @@ def run_unions(prog, instances, rec):
     try:
         for u in prog.get("unions", []):
             if cur is None or u.get("fresh"):
-                cur = run_build(prog, instances)
+                cur = run_build(prog, instances, light=True)
                 world.by_id.update(cur["world"].by_id)
             acts = cur["actions"]
             if any(ix >= len(acts) for ix in u["sel"] + u.get("other", [])):
                 continue      # (a shrunk case: the action is not built any more)
             sel = [acts[ix] for ix in u["sel"]]
             if u.get("other"):
-                second = run_build(prog, instances)
+                second = run_build(prog, instances, light=True)
                 sel += [second["actions"][ix] for ix in u["other"]]
                 world.by_id.update(second["world"].by_id)
             label = (f"{len(sel)} action(s) of the program (#{', #'.join(str(ix) for ix in u['sel'])}"
@@ -1147,12 +1147,21 @@ def cell_fn(prog, c):
     return prog["held"][c["held"]]["fn"] if "held" in c else c["fn"]
 
 
-def run_build(prog, instances, rng=None, nops=0, rec=None):
+def run_build(prog, instances, rng=None, nops=0, rec=None, light=False):
     """execute the program (generating its operations when rng is given).
     Returns observation dict; failures of operand integrity are collected in obs['fails']."""
     world = World(instances, prog.get("held", ()), rec)
     actions, groups = build_sources(prog, world)
     fails, steps = [], []
+    if light:      # a further build of a recorded program, for its actions only: nothing is observed on the way
+        for o in prog.get("ops", []):
+            try:
+                r = apply_op(o, actions, world)
+            except Exception:
+                continue
+            if not any(a is r for a in actions):
+                actions.append(r)
+        return {"world": world, "actions": actions, "groups": groups, "init": [], "steps": [], "fails": []}
     init = [snap(a) for a in actions]
     ops = prog.setdefault("ops", [])
     pool = [cell_fn(prog, s) for src in prog["sources"] for s in src["cells"]] + prog["pool"]
